@@ -91,6 +91,16 @@ static void* stack_alloc(void*, size_t size) {
 }
 static void stack_dealloc(void*, void* p, size_t size) { size_t g = std::min(size, STACK_GUARDED); ASAN_POISON_MEMORY_REGION((char*)p + size - g, g); stack_pool.push_back({p, size}); }
 
+// End of an execution: push 4 MB of never-touched blocks through free() so that ASan's (4 MB) quarantine lets go of everything this
+// execution freed; the next execution then gets the same (already resident) chunks again instead of fresh pages. Within one execution
+// the quarantine still protects every freed object. (Fresh-page faults cost ~0.5 ms each on this VM: without this a runner process
+// spends 2 s warming up.)
+static void flush_quarantine() {
+    static void* d[64];
+    for (int i = 0; i < 64; i++) d[i] = malloc(64 * 1024);
+    for (int i = 0; i < 64; i++) free(d[i]);
+}
+
 static int io_alloc(void*, IOAlloc::RangeSize sz, void** ptr) { *ptr = blk_alloc(sz.max); return sz.max; }
 static int io_dealloc(void*, void* ptr) { blk_release(ptr); return 0; }
 
@@ -658,6 +668,7 @@ void pmc_run(const char* config) {
     delete w.cfs; w.cfs = nullptr;
     sv::fini();
     W = nullptr;
+    if (getenv("C17_FLUSH")) flush_quarantine();
     if (getenv("C17_PROF")) { static int n; static long lastf; n++; if (n == 1 || n == 10 || n == 50 || n % 200 == 0) { struct rusage ru; getrusage(RUSAGE_SELF, &ru); FILE* f = fopen("/tmp/c17b/prof.txt", "a"); fprintf(f, "pid %d n=%d faults=%ld (+%ld) utime=%ld ms stime=%ld ms\n", getpid(), n, ru.ru_minflt, ru.ru_minflt - lastf, ru.ru_utime.tv_sec * 1000 + ru.ru_utime.tv_usec / 1000, ru.ru_stime.tv_sec * 1000 + ru.ru_stime.tv_usec / 1000); fclose(f); lastf = ru.ru_minflt; } }
 }
 
